@@ -45,6 +45,8 @@ var targets = []target{
 	{"types/state.go", "State", "NextState"},
 	{"block/manager.go", "Manager", "execValidate"},
 	{"block/manager.go", "Manager", "retrieveBatch"},
+	{"block/manager.go", "Manager", "publishBlockInternal"},
+	{"block/sync.go", "Manager", "updateState"},
 	{"block/manager.go", "Manager", "isUsingExpectedSingleSequencer"},
 	{"block/manager.go", "Manager", "isValidSignedData"},
 	{"block/manager.go", "Manager", "exponentialBackoff"},
@@ -98,6 +100,7 @@ func list(xs []string) string { return "[" + strings.Join(xs, "; ") + "]" }
 type tr struct {
 	imports map[string]bool // local names of imported packages in the current file
 	n       int
+	goTmps  map[string][]string // errgroup variable -> temporaries holding the results of its g.Go(func) bodies
 }
 
 func (t *tr) fresh() int { t.n++; return t.n }
@@ -267,6 +270,13 @@ func (t *tr) expr(e ast.Expr) string {
 				}
 				return "(ECall " + q(name) + " " + t.exprs(x.Args) + ")"
 			}
+			if id, ok := f.X.(*ast.Ident); ok && f.Sel.Name == "Wait" && len(x.Args) == 0 && len(t.goTmps[id.Name]) > 0 {
+				var vs []string
+				for _, tmp := range t.goTmps[id.Name] {
+					vs = append(vs, "(EVar "+q(tmp)+")")
+				}
+				return "(ECall " + q("$wait") + " " + list(vs) + ")"
+			}
 			return "(EMeth " + t.expr(f.X) + " " + q(f.Sel.Name) + " " + t.exprs(x.Args) + ")"
 		}
 		return "(EUnknown " + q("call "+text(x)) + ")"
@@ -304,6 +314,26 @@ func (t *tr) stmt(s ast.Stmt) string {
 			return "(SSkip " + q("log") + ")"
 		}
 		if c, ok := x.X.(*ast.CallExpr); ok {
+			// g.Go(func() error { return CALL }): the call is made (concurrently with its siblings; the log keeps program
+			// order) and its result is what g.Wait() later combines
+			if se, ok := c.Fun.(*ast.SelectorExpr); ok && se.Sel.Name == "Go" && len(c.Args) == 1 {
+				if id, ok := se.X.(*ast.Ident); ok {
+					if fl, ok := c.Args[0].(*ast.FuncLit); ok && len(fl.Body.List) == 1 {
+						if rs, ok := fl.Body.List[0].(*ast.ReturnStmt); ok && len(rs.Results) == 1 {
+							tmp := fmt.Sprintf("$go%d", t.fresh())
+							if t.goTmps == nil {
+								t.goTmps = map[string][]string{}
+							}
+							t.goTmps[id.Name] = append(t.goTmps[id.Name], tmp)
+							return "(SAssign [" + q(tmp) + "] " + t.expr(rs.Results[0]) + ")"
+						}
+					}
+				}
+			}
+			// m.metrics.X.Set(...) / .Add(...) / .Observe(...): a gauge, no influence on any decision
+			if f := text(c.Fun); strings.Contains(f, ".metrics.") && (strings.HasSuffix(f, ".Set") || strings.HasSuffix(f, ".Add") || strings.HasSuffix(f, ".Observe")) {
+				return "(SSkip " + q("metrics") + ")"
+			}
 			if f := text(c.Fun); strings.HasSuffix(f, ".Lock") || strings.HasSuffix(f, ".RLock") || strings.HasSuffix(f, ".Unlock") || strings.HasSuffix(f, ".RUnlock") {
 				return "(SSkip " + q("mutex") + ")"
 			}
@@ -349,6 +379,11 @@ func (t *tr) stmt(s ast.Stmt) string {
 	case *ast.DeferStmt:
 		if strings.HasSuffix(text(x.Call.Fun), ".Unlock") || strings.HasSuffix(text(x.Call.Fun), ".RUnlock") {
 			return "(SSkip " + q("mutex") + ")" // mutual exclusion is C13's subject, not a decision
+		}
+		if se, ok := x.Call.Fun.(*ast.SelectorExpr); ok && se.Sel.Name == "Stop" && len(x.Call.Args) == 0 {
+			if _, ok := se.X.(*ast.Ident); ok {
+				return "(SSkip " + q("defer timer") + ")" // a metrics timer
+			}
 		}
 		return "(SUnknown " + q("defer "+text(x)) + ")"
 	case *ast.AssignStmt:
@@ -482,6 +517,16 @@ func (t *tr) stmt(s ast.Stmt) string {
 						send = cm
 					}
 				}
+			}
+			var def *ast.CommClause
+			for _, c := range x.Body.List {
+				if cc := c.(*ast.CommClause); cc.Comm == nil && len(cc.Body) == 0 {
+					def = cc
+				}
+			}
+			if done != nil && def != nil {
+				// the non-blocking "has the context been cancelled" test
+				return "(SIf [] (ECall " + q("$ctxdone") + " []) " + t.block(&ast.BlockStmt{List: done.Body}) + " [])"
 			}
 			if done != nil && send != nil {
 				return "(SSendOrDone " + t.expr(send.Chan) + " " + t.expr(send.Value) + " " + t.block(&ast.BlockStmt{List: done.Body}) + ")"
